@@ -281,7 +281,7 @@ WalkSet(box, lvIn, L, all) ==
 FullSet == WalkSet(W.root, Levels, 0, FALSE)
 
 Must       == Range(W.must)         \* meta tile inset by 1/10 pixel of ITS level overlaps the coverage
-MustCoarse == Range(W.mustcoarse)   \* ... inset by 1/10 pixel of the coarsest level walked
+MustCoarse == Range(W.mustcoarse)   \* ... inset by 1/10 pixel of level 0, inside the tile matrix of every coarser level
 Allowed    == Range(W.allowed)      \* meta tile (with skip_geoms: some geometry-tested ancestor) at least touches it
 HandedNow  == Range(handed)
 HandedAll  == before \cup HandedNow
